@@ -66,6 +66,7 @@ pub fn schema_ty<T: FullS>(g: &mut Gen, b: &Budget, out: &mut Sink) {
     out.oracle("C09", m != "panic", &case, "max_serialized_size panicked");
     // the specification's verdict on the reported bound
     out.case(&format!("contchk lax {} {}", hex(&bs), m.replace(' ', "_").replace('(', "").replace(')', "")), "ok");
+    out.case(&format!("contval lax {} {}", hex(&bs), v.replace(' ', "_").replace('(', "").replace(')', "")), "ok");
     // C08: the container defines every declaration it references (no MissingDefinition) and validates
     // unless the type has a zero-sized-element collection
     out.oracle("C08", !v.starts_with("(missing") && !m.starts_with("(missing"), &case, &format!("{} {}", v, m));
@@ -151,6 +152,49 @@ pub fn with_schema_pair<T: FullS, U: FullS>(g: &mut Gen, out: &mut Sink) {
             let r = catch_unwind(AssertUnwindSafe(|| borsh::try_from_slice_with_schema::<U>(&bad)));
             out.oracle("C17", !matches!(r, Ok(Ok(_))), &case, &format!("corrupted schema byte {} accepted", p));
         }
+    }
+}
+
+/// the embedded schema perturbed (a definition dropped, added or changed): never accepted
+pub fn with_schema_perturbed<T: FullS>(g: &mut Gen, out: &mut Sink) {
+    let v = T::gen(g, 0);
+    let Some(vb) = enc_obs(&v).1 else { return };
+    let c = match catch_unwind(AssertUnwindSafe(|| BorshSchemaContainer::for_type::<T>())) {
+        Ok(c) => c,
+        Err(_) => return,
+    };
+    let defs: Vec<(Declaration, Definition)> = c.definitions().map(|(k, d)| (k.clone(), d.clone())).collect();
+    let mut variants: Vec<BorshSchemaContainer> = vec![c.clone()];
+    for i in 0..defs.len() {
+        let mut m: BTreeMap<Declaration, Definition> = defs.iter().cloned().collect();
+        m.remove(&defs[i].0);
+        variants.push(BorshSchemaContainer::new(c.declaration().clone(), m));
+    }
+    for extra in ["", "!", "zz", "~~~"] {
+        let mut m: BTreeMap<Declaration, Definition> = defs.iter().cloned().collect();
+        m.insert(extra.to_string(), Definition::Primitive(1));
+        variants.push(BorshSchemaContainer::new(c.declaration().clone(), m));
+    }
+    variants.push(BorshSchemaContainer::new(c.declaration().clone(), BTreeMap::new()));
+    variants.push(BorshSchemaContainer::new(format!("{}x", c.declaration()), defs.iter().cloned().collect()));
+    if let Some((k, _)) = defs.first() {
+        let mut m: BTreeMap<Declaration, Definition> = defs.iter().cloned().collect();
+        m.insert(k.clone(), Definition::Primitive(200));
+        variants.push(BorshSchemaContainer::new(c.declaration().clone(), m));
+    }
+    for c2 in variants {
+        let Some(mut bytes) = enc_obs(&c2).1 else { continue };
+        bytes.extend_from_slice(&vb);
+        let case = format!("wsraw {} {} {}", MODE, T::ty(), hex(&bytes));
+        let r = catch_unwind(AssertUnwindSafe(|| borsh::try_from_slice_with_schema::<T>(&bytes)));
+        let o = match r {
+            Ok(Ok(u)) => format!("ok {}", canon_of(&u)),
+            Ok(Err(e)) => show_err(&e),
+            Err(_) => "panic".into(),
+        };
+        out.case(&case, &o);
+        out.oracle("C17", o.starts_with("ok") == (c2 == c), &case,
+                   &format!("embedded schema {} the reader's own, result {}", if c2 == c { "equals" } else { "differs from" }, &o[..o.len().min(60)]));
     }
 }
 
@@ -242,6 +286,41 @@ pub fn gen_container(g: &mut Gen) -> BorshSchemaContainer {
     BorshSchemaContainer::new(root, defs)
 }
 
+/// structured hostile shapes: cycles that pass through zero-length arrays, untagged unions and
+/// empty structs, so that zero-size analysis and recursion detection interact
+pub fn gen_cyclic_container(g: &mut Gen) -> BorshSchemaContainer {
+    let names = ["A", "B", "C", "D"];
+    let k = 2 + g.below(3) as usize;
+    let mut defs: BTreeMap<Declaration, Definition> = BTreeMap::new();
+    for i in 0..k {
+        let next = names[(i + 1) % k].to_string();
+        let other = if g.chance(1, 2) { names[g.below(k as u64) as usize].to_string() } else { pick_name(g) };
+        let d = match g.below(9) {
+            0 => Definition::Sequence { length_width: 0, length_range: 0..=0, elements: next },
+            1 => Definition::Sequence { length_width: 4, length_range: 0..=(u32::MAX as u64), elements: next },
+            2 => Definition::Sequence { length_width: 0, length_range: 2..=2, elements: next },
+            3 => Definition::Tuple { elements: vec![next, other] },
+            4 => Definition::Tuple { elements: vec![other, next] },
+            5 => Definition::Struct { fields: Fields::UnnamedFields(vec![next]) },
+            6 => Definition::Struct { fields: Fields::NamedFields(vec![("f".into(), next), ("g".into(), other)]) },
+            7 => Definition::Enum { tag_width: *g.pick(&[0u8, 1]), variants: vec![(0, "X".into(), next), (1, "Y".into(), other)] },
+            _ => Definition::Sequence { length_width: *g.pick(&[0u8, 1, 4]), length_range: pick_range(g), elements: next },
+        };
+        defs.insert(names[i].to_string(), d);
+    }
+    if g.chance(1, 2) {
+        defs.insert("u8".into(), Definition::Primitive(1));
+    }
+    if g.chance(1, 2) {
+        defs.insert("()".into(), Definition::Primitive(0));
+    }
+    if g.chance(1, 3) {
+        defs.insert("Z".into(), Definition::Sequence { length_width: 0, length_range: 0..=0, elements: "u8".into() });
+    }
+    let root = names[g.below(k as u64) as usize].to_string();
+    BorshSchemaContainer::new(root, defs)
+}
+
 pub fn one_container(c: &BorshSchemaContainer, out: &mut Sink) {
     let (_, bs) = enc_obs(c);
     let Some(bs) = bs else { return };
@@ -267,6 +346,7 @@ pub fn one_container(c: &BorshSchemaContainer, out: &mut Sink) {
     out.oracle("C10", v != "panic", &case, "validate panicked");
     out.oracle("C09", m != "panic", &case, "max_serialized_size panicked");
     out.case(&format!("contchk {} {} {}", MODE, hex(&bs), m.replace(' ', "_").replace('(', "").replace(')', "")), "ok");
+    out.case(&format!("contval {} {} {}", MODE, hex(&bs), v.replace(' ', "_").replace('(', "").replace(')', "")), "ok");
 }
 
 /// committed corpus: witnesses of the (repaired) findings F1-F3 and other minimised shapes
@@ -309,12 +389,21 @@ pub fn container_corpus(out: &mut Sink) {
     one_container(&mk("A", vec![("A", seq(3, 0..=1, "u8")), ("u8", Definition::Primitive(1))]), out);
     one_container(&mk("A", vec![("A", seq(4, 3..=2, "u8")), ("u8", Definition::Primitive(1))]), out);
     one_container(&mk("B", vec![("A", Definition::Primitive(1))]), out);
+    // recursion through a zero-length array: the element of the dynamic sequence is zero-sized
+    one_container(
+        &mk("A", vec![
+            ("A", Definition::Struct { fields: Fields::UnnamedFields(vec!["Z".into()]) }),
+            ("Z", seq(0, 0..=0, "S")),
+            ("S", seq(4, 0..=(u32::MAX as u64), "A")),
+        ]),
+        out,
+    );
 }
 
 pub fn containers(g: &mut Gen, n: usize, out: &mut Sink) {
     container_corpus(out);
-    for _ in 0..n {
-        let c = gen_container(g);
+    for i in 0..n {
+        let c = if i % 3 == 2 { gen_cyclic_container(g) } else { gen_container(g) };
         one_container(&c, out);
     }
 }
